@@ -42,6 +42,19 @@ macro_rules! backend_mod {
                 include!("c1520_common.rs");
                 include!("props/c20.rs");
             }
+            pub mod c18_be {
+                use super::*;
+                include!("props/c18_be.rs");
+            }
+            #[cfg(feature = "hooks")]
+            pub mod c14 {
+                use super::*;
+                include!("props/c14.rs");
+            }
+            pub mod c16 {
+                use super::*;
+                include!("props/c16.rs");
+            }
             pub mod c17 {
                 use super::*;
                 include!("props/c17.rs");
@@ -60,6 +73,21 @@ macro_rules! backend_mod {
             }
         }
     };
+}
+
+/// C18 is backend-independent (serialisable layouts are host-side): a plain module.
+#[allow(dead_code, unused_imports, unused_variables, unused_mut)]
+pub mod c18 {
+    use super::{jo, util};
+    include!("props/c18.rs");
+}
+
+/// C13 is not backend-generic: the compiled BDD tables are plain data
+#[cfg(feature = "hooks")]
+#[allow(dead_code, unused_imports, unused_variables, unused_mut)]
+pub mod c13 {
+    use super::{jo, util};
+    include!("props/c13.rs");
 }
 
 backend_mod!(fft64ref, poulpy_cpu_ref::FFT64Ref, "fft64ref", true);
@@ -205,7 +233,23 @@ fn main() {
         "c10" => c10::run(&cfg, &mut rep),
         "c11" => on_backends!(&cfg, &mut rep, c11),
         "c12" => on_backends!(&cfg, &mut rep, c12),
+        "c16" => on_backends!(&cfg, &mut rep, c16),
         "c17" => on_backends!(&cfg, &mut rep, c17),
+        #[cfg(feature = "hooks")]
+        "c13" => c13::run(&cfg, &mut rep),
+        #[cfg(feature = "hooks")]
+        "c14" => on_backends!(&cfg, &mut rep, c14),
+        "c18" => {
+            // per-backend encryption samples for the format-identity part (name, producer)
+            let mut producers: Vec<(&'static str, fn(u64) -> Vec<(String, Vec<u8>)>)> =
+                vec![("fft64ref", fft64ref::c18_be::samples), ("ntt120ref", ntt120ref::c18_be::samples)];
+            #[cfg(feature = "avx")]
+            {
+                producers.push(("fft64avx", fft64avx::c18_be::samples));
+                producers.push(("ntt120avx", ntt120avx::c18_be::samples));
+            }
+            c18::run(&cfg, &mut rep, &producers)
+        }
         #[cfg(feature = "hooks")]
         "c15" => on_backends!(&cfg, &mut rep, c15),
         #[cfg(feature = "hooks")]
